@@ -930,10 +930,10 @@ func TestVerif_C19_Zebra(t *testing.T) {
 	if vr.Thorough() {
 		plan.AllocFilter = func(s *c19lib.Seed, e *c19lib.Entry) bool { return e == s.Entries[0] }
 		// Thorough: full alphabet <=3 at the default flavour (v6/frr8.1) with cap==len only, full <=2 and boundary <=3
-	// everywhere, boundary <=4 at the representative flavours. All 256 byte values, garbage tails and fault
-	// pairs only for the seeds of the representative flavours; no pairs for seeds that carry a nexthop list
-	// (every pair that includes a count fault costs 13 MiB and up to 65535 iterations: the known
-	// amplification would dominate the run with terabytes of allocation).
+		// everywhere, boundary <=4 at the representative flavours. All 256 byte values, garbage tails and fault
+		// pairs only for the seeds of the representative flavours; no pairs for seeds that carry a nexthop list
+		// (every pair that includes a count fault costs 13 MiB and up to 65535 iterations: the known
+		// amplification would dominate the run with terabytes of allocation).
 		plan.Groups = []c19lib.StrGroup{
 			{Label: "v6/frr8.1 full<=3 cap==len", Entries: tightRep, Alpha: c19lib.FullAlphabet(), MaxLen: 3},
 			{Label: "all full<=1", Entries: entries, Alpha: c19lib.FullAlphabet(), MaxLen: 1},
